@@ -3,6 +3,7 @@ module verifharness
 go 1.23.0
 
 require (
+	github.com/anishathalye/porcupine v1.3.0
 	github.com/IBM/sarama v1.43.3
 	github.com/pion/dtls/v2 v2.2.12
 	github.com/spf13/cobra v1.8.1
